@@ -20,6 +20,7 @@ class Batching:
         self.outputs = 0
         self.split_inputs = 0
         self.empty_inputs = 0
+        self.prefix = {}
 
     def on_event(self, env, head):
         ctx, m = self.ctx, self.m
@@ -97,6 +98,18 @@ class Batching:
                     h = top._routing_history
                     for p in parts:
                         ph = p._routing_history
+                        # every update of the batch's history must have been applied to the part as it is:
+                        # what the part's history was when it joined stays its prefix, the rest is the batch's
+                        key = (id(top), id(p))
+                        pre = self.prefix.get(key)
+                        if pre is None:
+                            if len(ph) >= len(h):
+                                self.prefix[key] = list(ph[:len(ph) - len(h)])
+                        elif len(ph) != len(pre) + len(h) or any(x is not y for x, y in zip(ph, pre + list(h))):
+                            ctx.report('batch_history', f'batch {top.name} at {did}: part {p.name} history '
+                                       f'{[d.name for d in ph]} is not its history when it joined the batch '
+                                       f'{[d.name for d in pre]} followed by the batch\'s {[d.name for d in h]}')
+                            return
                         if len(ph) < len(h) or any(x is not y for x, y in zip(ph[len(ph) - len(h):], h)):
                             ctx.report('batch_history', f'batch {top.name} at {did}: history '
                                        f'{[d.name for d in h]} is not a suffix of part {p.name} history '
